@@ -24,7 +24,7 @@ RULE = ("E-PROD (warm start): dimension x Hessian spectrum x parameter slot {bc 
         "parameter change is non-zero and (warm start) the increment is non-zero / (load step) the solution moved; measured.")
 ASSUMPTIONS = [
     "sksparse stand-in in /verif/shim",
-    "energies: E(x;p) = 1/2 x'(A+diag(p2))x + 1/4 c4 sum x^4 - (B p0).x with SPD A+diag(p2) on the alphabet (the property's premise)",
+    "energies: E(x;p) = 1/2 x'(A+diag(p2))x + 1/4 c4 sum x^4 - ((B p0)*(1+p2/2)).x with SPD A+diag(p2) on the alphabet (the property's premise)",
     "warm-start tolerance is the one its linear solve states: scipy cg default rtol=1e-5 on ||H dx - b||; the reference forms "
     "H and b = (d grad/dp)(p_old - p_new) densely in numpy",
     "augmented-Lagrangian drivers return no flag; for them a normal return must satisfy the KKT bounds of C04 under the requested parameters",
@@ -38,7 +38,7 @@ HORIZON_S = 60.0
 def _depth(tier, driver):
     if tier == "quick":
         return {"nes": 4, "spg": 3, "al": 3, "bcs": 3}[driver]
-    return {"nes": 5, "spg": 4, "al": 3, "bcs": 3}[driver]
+    return {"nes": 4, "spg": 3, "al": 3, "bcs": 3}[driver]     # thorough adds the 'wide' spectrum and n=5, not depth (12^d growth)
 
 
 def bounds(tier):
@@ -55,7 +55,7 @@ def groups(tier, seed):
     for spec in ("spd100", "wide"):
         gs.append({"name": "scaled-%s" % spec, "kind": "scaled", "n": 3, "spec": spec})
     for drv in ("al", "bcs", "spg", "nes"):
-        for spec in ("spd100", "quartic"):
+        for spec in (("spd100", "quartic") if tier == "quick" else ("spd100", "quartic", "wide")):
             for first in range(12):
                 gs.append({"name": "steps-%s-%s-a%02d" % (drv, spec, first), "kind": "steps", "driver": drv, "n": 2,
                            "spec": spec, "first": first})
@@ -76,8 +76,14 @@ def _data(n, spec, seed):
     return {"A": A, "B": B, "c4": c4, "lam": lam, "n": n, "k": k}
 
 
+def _load(p0, p2, d):
+    """load vector; depends on the bc slot AND (through a factor) on the design slot, so that the bc-slot Jacobian of
+    the gradient depends on another slot (added after a seeded change that froze the other slots went undetected)"""
+    return (d["B"] @ p0) * (1.0 + 0.5 * p2)
+
+
 def _ref_grad(x, p0, p2, d):
-    return (d["A"] + onp.diag(p2)) @ x + d["c4"] * x ** 3 - d["B"] @ p0
+    return (d["A"] + onp.diag(p2)) @ x + d["c4"] * x ** 3 - _load(p0, p2, d)
 
 
 def _ref_hess(x, p2, d):
@@ -85,10 +91,10 @@ def _ref_hess(x, p2, d):
 
 
 def _ref_solve(p0, p2, d, x0=None):
-    x = onp.linalg.solve(d["A"] + onp.diag(p2), d["B"] @ p0) if x0 is None else onp.array(x0, dtype=float)
+    x = onp.linalg.solve(d["A"] + onp.diag(p2), _load(p0, p2, d)) if x0 is None else onp.array(x0, dtype=float)
     for _ in range(100):
         g = _ref_grad(x, p0, p2, d)
-        if onp.linalg.norm(g) < 1e-15 * (1 + onp.linalg.norm(d["B"] @ p0)):
+        if onp.linalg.norm(g) < 1e-15 * (1 + onp.linalg.norm(_load(p0, p2, d))):
             break
         x = x - onp.linalg.solve(_ref_hess(x, p2, d), g)
     return x
@@ -100,7 +106,7 @@ def _make(d):
     A, B, c4 = jnp.array(d["A"]), jnp.array(d["B"]), d["c4"]
 
     def f(x, p):
-        return 0.5 * x @ ((A + jnp.diag(p[2])) @ x) + 0.25 * c4 * jnp.sum(x ** 4) - (B @ p[0]) @ x
+        return 0.5 * x @ ((A + jnp.diag(p[2])) @ x) + 0.25 * c4 * jnp.sum(x ** 4) - ((B @ p[0]) * (1.0 + 0.5 * p[2])) @ x
 
     def params(p0, p2):
         return Objective.Params(bc_data=jnp.array(p0), design_data=jnp.array(p2))
@@ -125,66 +131,66 @@ def _run_ws(g, tier, seed, rec):
     f, params = _make(d)
     k = d["k"]
     p0 = onp.linspace(0.5, 1.5, k)
-    p2 = onp.linspace(0.1, 0.4, n)
-    obj = Objective.Objective(f, jnp.zeros(n), params(p0, p2))
-    xsol = _ref_solve(p0, p2, d)
-    for slot in (0, 2):
-        m = k if slot == 0 else n
-        for j in range(m):
-            for mag_l, mag in (("1e-3", 1e-3), ("1", 1.0), ("10", 10.0)):
-                for sgn in (1.0, -1.0):
-                    for xl, x in (("exact", xsol), ("perturbed", xsol + 0.1 * onp.cos(onp.arange(n) + 1.0))):
-                        for pc in ("exact", "stale", "identity"):
-                            cid = "ws;n=%d;spec=%s;slot=%d;dir=%d;mag=%s%s;x=%s;pc=%s" % (
-                                n, g["spec"], slot, j, "+" if sgn > 0 else "-", mag_l, xl, pc)
-                            if not rec.want(cid):
-                                continue
-                            dp = onp.zeros(m)
-                            dp[j] = sgn * mag
-                            q0, q2 = (p0 + dp, p2) if slot == 0 else (p0, p2 + dp)
-                            if slot == 2 and onp.min(onp.linalg.eigvalsh(d["A"] + onp.diag(q2))) <= 1e-6:
-                                rec.branch("skipped:new-hessian-not-spd")
-                                continue
-                            pnew = params(q0, q2)
-                            obj.p = params(p0, p2)
-                            shim.FAIL_ALWAYS[0] = (pc == "identity")
-                            try:
-                                with contextlib.redirect_stdout(io.StringIO()):
-                                    obj.update_precond(jnp.array(x + (2.0 if pc == "stale" else 0.0)))
-                                    dx = WarmStart.warm_start_increment(obj, jnp.array(x), pnew, index=slot)
-                            except Exception as e:  # noqa
-                                ek = exception_key(e)
-                                if ek.endswith("@harness"):
-                                    raise
-                                rec.violation("warm_start_increment|slot=%d|%s" % (slot, ek), cid, {"error": repr(e)})
-                                rec.case(cid, outcome="exception")
-                                continue
-                            finally:
-                                shim.FAIL_ALWAYS[0] = False
-                            dx = onp.array(dx, dtype=float)
-                            H = _ref_hess(x, p2, d)
-                            # b = (d grad / dp)(p_old - p_new): finite difference is exact because grad is affine in p0
-                            # and in p2 (diag(p2) x)
-                            bref = _ref_grad(x, p0, p2, d) - _ref_grad(x, q0, q2, d)
-                            res = float(onp.linalg.norm(H @ dx - bref))
-                            bn = float(onp.linalg.norm(bref))
-                            rec.track_max("warm_start_residual_over_rtol_b", res / (1e-5 * bn) if bn > 0 else 0.0)
-                            sigs = []
-                            if not res <= 1.05e-5 * bn + 1e-14:
-                                sigs.append("not-the-linear-predictor")
-                            if xl == "exact" and d["c4"] == 0.0 and slot == 0:
-                                gnew = float(onp.linalg.norm(_ref_grad(x + dx, q0, q2, d)))
-                                if not gnew <= 1.05e-5 * bn + 1e-12:
-                                    sigs.append("does-not-land-on-new-solution")
-                            if not onp.array_equal(onp.asarray(obj.p[slot]), (p0, None, p2)[slot]):
-                                sigs.append("objective.p-modified-by-warm-start")
-                            for s in sigs:
-                                rec.violation("warm_start_increment|slot=%d|%s" % (slot, s), cid,
-                                              {"dx": dx, "expected": onp.linalg.solve(H, bref), "x": x, "dp": dp, "pc": pc,
-                                               "residual": res, "b_norm": bn})
-                            rec.branch("slot%d:%s" % (slot, pc))
-                            rec.case(cid, nontrivial=bool(onp.linalg.norm(dx) > 0), outcome="ok" if not sigs else "violating",
-                                     sample=({"case": cid, "dx": dx, "residual": res} if stable_hash(cid) % 300 == 0 else None))
+    obj = Objective.Objective(f, jnp.zeros(n), params(p0, onp.linspace(0.1, 0.4, n)))
+    for p2l, p2 in (("a", onp.linspace(0.1, 0.4, n)), ("b", onp.linspace(0.9, 0.3, n))):
+      xsol = _ref_solve(p0, p2, d)
+      for slot in (0, 2):
+          m = k if slot == 0 else n
+          for j in range(m):
+              for mag_l, mag in (("1e-3", 1e-3), ("1", 1.0), ("10", 10.0)):
+                  for sgn in (1.0, -1.0):
+                      for xl, x in (("exact", xsol), ("perturbed", xsol + 0.1 * onp.cos(onp.arange(n) + 1.0))):
+                          for pc in ("exact", "stale", "identity"):
+                              cid = "ws;n=%d;spec=%s;p2=%s;slot=%d;dir=%d;mag=%s%s;x=%s;pc=%s" % (
+                                  n, g["spec"], p2l, slot, j, "+" if sgn > 0 else "-", mag_l, xl, pc)
+                              if not rec.want(cid):
+                                  continue
+                              dp = onp.zeros(m)
+                              dp[j] = sgn * mag
+                              q0, q2 = (p0 + dp, p2) if slot == 0 else (p0, p2 + dp)
+                              if slot == 2 and onp.min(onp.linalg.eigvalsh(d["A"] + onp.diag(q2))) <= 1e-6:
+                                  rec.branch("skipped:new-hessian-not-spd")
+                                  continue
+                              pnew = params(q0, q2)
+                              obj.p = params(p0, p2)
+                              shim.FAIL_ALWAYS[0] = (pc == "identity")
+                              try:
+                                  with contextlib.redirect_stdout(io.StringIO()):
+                                      obj.update_precond(jnp.array(x + (2.0 if pc == "stale" else 0.0)))
+                                      dx = WarmStart.warm_start_increment(obj, jnp.array(x), pnew, index=slot)
+                              except Exception as e:  # noqa
+                                  ek = exception_key(e)
+                                  if ek.endswith("@harness"):
+                                      raise
+                                  rec.violation("warm_start_increment|slot=%d|%s" % (slot, ek), cid, {"error": repr(e)})
+                                  rec.case(cid, outcome="exception")
+                                  continue
+                              finally:
+                                  shim.FAIL_ALWAYS[0] = False
+                              dx = onp.array(dx, dtype=float)
+                              H = _ref_hess(x, p2, d)
+                              # b = (d grad / dp)(p_old - p_new): finite difference is exact because grad is affine in p0
+                              # and in p2 (diag(p2) x)
+                              bref = _ref_grad(x, p0, p2, d) - _ref_grad(x, q0, q2, d)
+                              res = float(onp.linalg.norm(H @ dx - bref))
+                              bn = float(onp.linalg.norm(bref))
+                              rec.track_max("warm_start_residual_over_rtol_b", res / (1e-5 * bn) if bn > 0 else 0.0)
+                              sigs = []
+                              if not res <= 1.05e-5 * bn + 1e-14:
+                                  sigs.append("not-the-linear-predictor")
+                              if xl == "exact" and d["c4"] == 0.0 and slot == 0:
+                                  gnew = float(onp.linalg.norm(_ref_grad(x + dx, q0, q2, d)))
+                                  if not gnew <= 1.05e-5 * bn + 1e-12:
+                                      sigs.append("does-not-land-on-new-solution")
+                              if not onp.array_equal(onp.asarray(obj.p[slot]), (p0, None, p2)[slot]):
+                                  sigs.append("objective.p-modified-by-warm-start")
+                              for s in sigs:
+                                  rec.violation("warm_start_increment|slot=%d|%s" % (slot, s), cid,
+                                                {"dx": dx, "expected": onp.linalg.solve(H, bref), "x": x, "dp": dp, "pc": pc,
+                                                 "residual": res, "b_norm": bn})
+                              rec.branch("slot%d:%s" % (slot, pc))
+                              rec.case(cid, nontrivial=bool(onp.linalg.norm(dx) > 0), outcome="ok" if not sigs else "violating",
+                                       sample=({"case": cid, "dx": dx, "residual": res} if stable_hash(cid) % 300 == 0 else None))
 
 
 def _run_scaled(g, tier, seed, rec):
@@ -245,6 +251,40 @@ def _run_scaled(g, tier, seed, rec):
                     sigs.append(("plain-solution-wrong", {"got": xp, "expected": xs}))
                 if not onp.array_equal(onp.asarray(sobj.p[0]), p0):
                     sigs.append(("objective.p-not-requested", {}))
+                # the same scaled objective through the bound-constrained driver with ACTIVE finite bounds given in
+                # physical units (quadratic energies only: exact box-QP reference by active-set enumeration)
+                if d["c4"] == 0.0:
+                    from optimism import TrustRegionSPG as SPG
+                    from mc.props.c05 import _box_qp
+                    Aq = d["A"] + onp.diag(p2)
+                    bq = _load(p0, p2, d)
+                    ub = xs - 0.3 * onp.abs(xs) - 0.1
+                    lb = onp.where(onp.arange(n) % 2 == 0, -onp.inf, xs - 5.0 - onp.abs(xs))
+                    xb_ref = _box_qp(Aq, bq, lb, ub)
+                    try:
+                        with contextlib.redirect_stdout(io.StringIO()), horizon(HORIZON_S):
+                            sobj2 = Objective.ScaledObjective(f, jnp.array(x0), pold, precondStrategy=ps)
+                            xstart = jnp.array(onp.clip(x0, lb, ub))
+                            xb, okb = SPG.solve(sobj2, xstart, pnew, jnp.array(lb), jnp.array(ub),
+                                                SPG.get_settings(tol=1e-10), useWarmStart=False)
+                        xb = onp.array(xb, dtype=float)
+                        wq = onp.linalg.eigvalsh(Aq)
+                        bnd = 10 * 1e-10 * float(onp.max(S)) * (1 + float(wq[-1])) / float(wq[0])
+                        errb = float(onp.linalg.norm(xb - xb_ref))
+                        rec.track_max("scaled_spg_solution_error_over_bound", errb / bnd)
+                        rec.branch("scaled-spg:%s" % bool(okb))
+                        if bool(okb) and not errb <= bnd:
+                            sigs.append(("scaled-bound-constrained-solution-not-the-unscaled-solution",
+                                         {"got": xb, "expected": xb_ref, "lb": lb, "ub": ub}))
+                        if onp.any(xb > ub + 1e-9 * (1 + onp.abs(ub))) or onp.any(xb < lb - 1e-9 * (1 + onp.abs(lb))):
+                            sigs.append(("scaled-bound-constrained-solution-outside-physical-bounds",
+                                         {"got": xb, "lb": lb, "ub": ub}))
+                    except HorizonExceeded:
+                        rec.branch("scaled-spg:horizon")
+                    except RuntimeError as e:
+                        if "No acceptable Cauchy point" not in str(e):
+                            raise
+                        rec.branch("scaled-spg:cauchy-runtime-error")
                 for s, extra in sigs:
                     rec.violation("ScaledObjective|%s" % s, cid, dict({"x0": x0, "p2": p2}, **extra))
                 rec.case(cid, nontrivial=spread > 0, outcome="ok" if not sigs else "violating",
